@@ -506,10 +506,22 @@ def _execute_fields_alignment(ck, repo):
     p = f.positional_params
     loop = None
     for lp in fv.loops():
-        if isinstance(lp, ast.For) and "enumerate" in unparse(lp.iter) and f"{p[4]}.items()" in unparse(lp.iter):
+        if isinstance(lp, ast.For) and f"{p[4]}.items()" in unparse(lp.iter):
             loop = lp
     if loop is None:
-        raise AnalysisError("execute_fields: loop over enumerate(fields.items()) not found")
+        raise AnalysisError("execute_fields: loop over fields.items() not found")
+    if "enumerate" not in unparse(loop.iter):
+        # the slot a deferred field is written back to has to be remembered: without a per-field index there is nothing to key it by
+        lens = [n for n in walk_no_nested(loop) if isinstance(n, ast.Assign) and unparse(n.value) == "len(results)"]
+        wbs = [n for n in walk_no_nested(f.node) if isinstance(n, ast.Assign) and isinstance(n.targets[0], ast.Subscript) and unparse(n.targets[0].value) == "results"]
+        if wbs:
+            ck.ob("execute_fields: the loop tracks the index of each field's slot (a deferred result is written back by it)", bool(lens), f, loop, construct="deferred:index",
+                  detail="no enumerate(...) over the fields and no `i = len(results)`: a write-back that finds its slot by the slot's content (`is None`) confuses a deferred field with a field that resolved to null")
+        gs = [c for c in fv.calls("gather") if any(k.arg == "return_exceptions" and unparse(k.value) == "True" for k in c.keywords)]
+        ck.ob("execute_fields: the deferred fields are awaited together, failures returned rather than raised (every sibling finishes, every error is collected)", bool(gs), f,
+              gs[0] if gs else loop, construct="deferred:gather-operands",
+              detail="awaiting the slots one by one re-raises the first failure: its siblings are left running and their errors are never reported")
+        return
     head = fv.cfg.node_of(loop)
     appends = [c for c in fv.calls("append") if unparse(c.func.value) == "results" and contains(loop, c)]
     ck.count("execute_fields_result_appends", len(appends), 2)
